@@ -215,6 +215,8 @@ func (ai *actionInfo) siblings(action string) []string {
 	var out []string
 	if strings.HasSuffix(action, "Version") {
 		out = append(out, strings.TrimSuffix(action, "Version"))
+	} else {
+		out = append(out, action+"Version")
 	}
 	if strings.Contains(action, "Object") {
 		out = append(out, strings.Replace(action, "Object", "Bucket", 1))
